@@ -105,6 +105,62 @@ def pairs(ctx):
     ctx.observe("spec", spec)
 
 
+VALUE_FORMS = ["qname ex:v", "Identifier(EX+'v')", "Literal(EX+'v', xsd:anyURI)", "str EX+'v'", "qname ex2:v (same URI, other prefix)"]
+TEXT_SHAPES = ["entity ex:a", "entity en:x with attribute ex:k", "entity en:x with value", "usage en:x -> ex:a", "entity with two value forms"]
+
+
+def _text_doc(ctx, uri, shape, form_tag, fixed=None):
+    from prov.identifier import Identifier
+    from prov.model import Literal, ProvDocument
+    import prov.constants as pc
+
+    d = ProvDocument()
+    d.add_namespace("ex", uri)
+    d.add_namespace("ex2", uri)
+    d.add_namespace("en", "http://n/")
+
+    def value(tag):
+        f = fixed[tag] if fixed and tag in fixed else ctx.choose(tag, len(VALUE_FORMS))
+        if f == 0:
+            return d.valid_qualified_name("ex:v")
+        if f == 1:
+            return Identifier(EX + "v")
+        if f == 2:
+            return Literal(EX + "v", pc.XSD_ANYURI)
+        if f == 3:
+            return EX + "v"
+        return d.valid_qualified_name("ex2:v")
+
+    if shape == 0:
+        d.entity("ex:a")
+    elif shape == 1:
+        d.entity("en:x", [("ex:k", 5)])
+    elif shape == 2:
+        d.entity("en:x", [("en:k", value(form_tag))])
+    elif shape == 3:
+        d.entity("en:x")
+        d.usage("en:x", "ex:a")
+    else:
+        d.entity("en:x", [("en:k", value(form_tag)), ("en:k", value(form_tag + "b"))])
+    return d
+
+
+def same_text(ctx):
+    """two documents whose names have the same prefixed TEXT: equal iff the prefix denotes the same URI in both;
+    values that share a URI text but are different kinds of value (qualified name, xsd:anyURI, string) stay different"""
+    from oracles import strict as S
+
+    stub_logging_str(ctx)
+    shape = ctx.params["shape"]
+    u = ctx.str("u", 9, 1, "uri")
+    d1 = _text_doc(ctx, EX, shape, "f1", {"f1": 0, "f1b": 1} if shape == 4 else None)
+    d2 = _text_doc(ctx, u, shape, "f2")
+    ctx.check(bool(d1 == d1) and bool(d2 == d2), "document == is not reflexive")
+    spec = _check_pair(ctx, S, d1, d2)
+    _check_records(ctx, S, d1, d2)
+    ctx.observe("spec", spec)
+
+
 def triples(ctx):
     from oracles import strict as S
 
@@ -300,6 +356,11 @@ OBLIGATIONS = [
                                 "identifiers EX+local |local|<=2 under prefixes ex/ex2; unbounded symbolic int values",
                        "thorough": "<=3 vs <=2 top-level records; bundles with <=2 records"},
                assumptions=_ASSUME, functions=_FUNCS, budget_s=(150, 900), per_path_s=(20, 40)),
+    Obligation(name="same_text", fn=same_text, shards=[{"shape": i} for i in range(len(TEXT_SHAPES))],
+               desc="documents whose names are spelled with the same prefix:local text: == holds iff the prefix denotes the same URI in both (symbolic URI in the second); "
+                    "a qualified name, an xsd:anyURI and a string with the same URI text are different values (one record may hold two of them)",
+               bounds="5 document shapes; namespace URI symbolic |u|<=9 (so it can equal 'http://e/'); 5 value forms per value, up to 2 values",
+               assumptions=_ASSUME, functions=_FUNCS, budget_s=(150, 600), per_path_s=(20, 40)),
     Obligation(name="triples", fn=triples, shards=_triple_shards,
                desc="transitivity of == over all triples of documents in bounds",
                bounds={"quick": "3 documents of 1 record, or a bundle with 1 record", "thorough": "3 documents of <=2 records / 1+1"},
